@@ -23,6 +23,8 @@ import ImmuModel.Log.MultiBase
 import ImmuModel.Log.MultiReadLemmas
 import ImmuModel.Log.MultiWriteLemmas
 import ImmuModel.Log.MultiTraceLemmas
+import ImmuModel.Log.Faults
+import ImmuModel.Log.FaultLemmas
 
 namespace ImmuModel.Props.C17
 open ImmuModel ImmuModel.Log
@@ -194,6 +196,99 @@ theorem history_refines_noReopen (s : SingleApp) (h : SingleApp.Inv s) (hcap : s
   obtain ⟨a, w⟩ := run_abs_noReopen ops s ⟨h, hcap⟩ hno
   exact ⟨a, w.1⟩
 
+/-! ### fault paths: failing fsync, failing write (reached on the real code by fault injection; seeded change c17-b) -/
+
+/-- **A failed Sync refines the identity on the byte log.** On an open, writable handle `Sync()` with a failing
+fsync returns the error and the content, `Offset()`, `Size()` and the offset returned by the next Append are what
+they were; the invariant is preserved.  Retryable mode, statement by statement (`else` branch of `sync()`): the
+buffer is kept whole, `wbufFlushedOffset = 0`, a seek is requested and `fileOffset` has gone back by the number of
+buffered bytes that had reached the file — by the `wbufFlushedOffset` of BEFORE its reset — so that
+`fileOffset + len(buffer) = Offset()`: the next flush rewrites the buffer exactly where it was written.
+Non-retryable mode: the state is the one left by the flush (buffer freed), only the error is reported. -/
+theorem syncFail_refines {s : SingleApp} (h : SingleApp.Inv s) (hcap : 0 < s.cap) (hc : s.closed = false)
+    (hro : s.readOnly = false) :
+    (s.apiSync false).2 = some .syncFailed ∧
+    abs (s.apiSync false).1 = abs s ∧ SingleApp.Inv (s.apiSync false).1 ∧
+    (s.apiSync false).1.offset = s.offset ∧ (s.apiSync false).1.size = s.size ∧
+    (∀ bs ok, bs ≠ [] → ((s.apiSync false).1.append bs ok).2.1 = (abs s).size) ∧
+    (s.retryableSync = true →
+      (s.apiSync false).1.buf = s.buf ∧ (s.apiSync false).1.flushed = 0 ∧
+      (s.apiSync false).1.seekRequired = true ∧
+      (s.apiSync false).1.fileOffset = s.fileOffset - s.flushed ∧
+      (s.apiSync false).1.fileOffset + (s.apiSync false).1.buf.length = s.offset ∧
+      (s.apiSync false).1.file = s.flush.file) ∧
+    (s.retryableSync = false → (s.apiSync false).1 = s.flush) := by
+  have he : s.apiSync false = s.sync false := by simp [apiSync, hc, hro]
+  obtain ⟨si, sa, sc, _⟩ := apiSync_spec h false
+  have hoff : (s.apiSync false).1.offset = s.offset := by rw [← abs_size si, sa, abs_size h]
+  have hcl : (s.apiSync false).1.closed = false := by rw [sc.2.2.2.2.1, hc]
+  have hro' : (s.apiSync false).1.readOnly = false := by rw [sc.2.2.2.1, hro]
+  have hcap' : 0 < (s.apiSync false).1.cap := by rw [sc.1]; exact hcap
+  refine ⟨?_, sa, si, hoff, ?_, ?_, ?_, ?_⟩
+  · rw [he]
+    cases hr : s.retryableSync
+    · rw [sync_fail_nonretry s hr]
+    · exact (sync_fail_retry h hr).1
+  · simp [SingleApp.size, hcl, hc, hoff]
+  · intro bs ok hne
+    rw [(append_refines si hcap' hcl hro' bs hne ok).1, sa]
+  · intro hr
+    obtain ⟨_, _, b, f, sk, fo, sum, fl, _⟩ := sync_fail_retry h hr
+    rw [he]; exact ⟨b, f, sk, fo, sum, fl⟩
+  · intro hr
+    rw [he, sync_fail_nonretry s hr]
+
+/-- **The retry.** Retryable mode, nothing rolled back behind the logical end before: after a failed Sync a successful
+Sync frees the buffer, leaves no stale bytes behind the logical end (the buffer was rewritten in place), and
+Close + Open (any options) finds exactly the same bytes at the same offsets. -/
+theorem syncFail_retry_reopen {s : SingleApp} (h : SingleApp.Inv s) (hr : s.retryableSync = true)
+    (hc : s.closed = false) (hro : s.readOnly = false) (hn : NoStaleTail s) (o : SOpts) :
+    ((s.apiSync false).1.apiSync true).2 = none ∧
+    abs ((s.apiSync false).1.apiSync true).1 = abs s ∧
+    ((s.apiSync false).1.apiSync true).1.buf = [] ∧
+    NoStaleTail ((s.apiSync false).1.apiSync true).1 ∧
+    abs ((((s.apiSync false).1.apiSync true).1.close).1.reopen o) = abs s := by
+  have he : s.apiSync false = s.sync false := by simp [apiSync, hc, hro]
+  obtain ⟨si, _, sc, _⟩ := apiSync_spec h false
+  have hcl : (s.apiSync false).1.closed = false := by rw [sc.2.2.2.2.1, hc]
+  have hro' : (s.apiSync false).1.readOnly = false := by rw [sc.2.2.2.1, hro]
+  have gen : ∀ (t : SingleApp) (ok : Bool), t.closed = false → t.readOnly = false → t.apiSync ok = t.sync ok := by
+    intro t ok a b; simp [apiSync, a, b]
+  have he2 : (s.apiSync false).1.apiSync true = (s.sync false).1.sync true := by
+    rw [gen _ true hcl hro', he]
+  obtain ⟨ui, _, uc, _⟩ := apiSync_spec si true
+  have hcl2 : ((s.apiSync false).1.apiSync true).1.closed = false := by rw [uc.2.2.2.2.1, hcl]
+  obtain ⟨r1, r2, r3, r4, r5⟩ := sync_retry_noStale h hr hn
+  rw [← he2] at r1 r2 r3 r4 r5
+  refine ⟨r1, r2, r4, r5, ?_⟩
+  rw [(reopen_refines_partial ui hcl2 r5 o).2.1, r2]
+
+/-- **A failing write that writes nothing** (`Flush()` / `Sync()` while `f.Write` returns `(0, err)`) changes neither
+the content nor `Offset()` nor the file; the invariant is preserved. -/
+theorem writeFail_unchanged {s : SingleApp} (h : SingleApp.Inv s) (ok : Bool) :
+    abs s.apiFlushW0.1 = abs s ∧ SingleApp.Inv s.apiFlushW0.1 ∧ s.apiFlushW0.1.offset = s.offset ∧
+    s.apiFlushW0.1.file = s.file ∧
+    abs (s.apiSyncW0 ok).1 = abs s ∧ SingleApp.Inv (s.apiSyncW0 ok).1 :=
+  ⟨(apiFlushW0_spec h).2.1, (apiFlushW0_spec h).1, (apiFlushW0_spec h).2.2.2.2, (apiFlushW0_spec h).2.2.2.1,
+   (apiSyncW0_spec h ok).2.1, (apiSyncW0_spec h ok).1⟩
+
+/-- default options, 64-byte buffer: `Append(10×'A'); Flush` — the 10 bytes are in the file and still in the buffer -/
+def wFS : SingleApp :=
+  run (create { cap := 64, retryableSync := true, autoSync := true, readOnly := false } 0 [])
+    [.append [65, 65, 65, 65, 65, 65, 65, 65, 65, 65] true, .flush]
+
+/-- **The state in which the order of the statements of the failure branch matters is reachable**: on `wFS`
+(`flushed = 10`) a failed Sync leaves `Offset() = 10`, `fileOffset = 0`, and the next Append returns 10 — whereas
+resetting `wbufFlushedOffset` without having moved `fileOffset` back reports `Offset() = 20` (the ten bytes counted
+once in the file and once in the buffer).  The harness reaches this state in every run (op `syncfail`). -/
+theorem syncFail_rollback_witness :
+    SingleApp.Inv wFS ∧ wFS.flushed = 10 ∧ wFS.fileOffset = 10 ∧ wFS.offset = 10 ∧
+    (wFS.apiSync false).2 = some .syncFailed ∧ (wFS.apiSync false).1.fileOffset = 0 ∧
+    (wFS.apiSync false).1.offset = 10 ∧ ((wFS.apiSync false).1.append [98] true).2.1 = 10 ∧
+    ({ wFS with seekRequired := true, flushed := 0 } : SingleApp).offset = 20 := by
+  refine ⟨?_, by decide, by decide, by decide, by decide, by decide, by decide, by decide, by decide⟩
+  exact (run_wf _ _ ⟨openFile_inv _ _ _, fun _ => by decide⟩ (by simp [ValidOps])).1
+
 /-! ### the two known defects, as witnesses on the mirror model -/
 
 /-- write buffer of 8 bytes, non-retryable sync -/
@@ -359,6 +454,22 @@ theorem multi_flush_sync_abs_unchanged {m : MultiApp} (h : MInv m) (ok : Bool) :
     MInv m.flush.1 ∧ MInv (m.sync ok).1 ∧ MInv (m.switchRO ok).1 :=
   ⟨(MultiApp.flush_spec h).2.1, (MultiApp.sync_spec h ok).2.1, (MultiApp.switchRO_spec h ok).2.1,
    (MultiApp.flush_spec h).1, (MultiApp.sync_spec h ok).1, (MultiApp.switchRO_spec h ok).1⟩
+
+/-- **A failed Sync of a multi-file appendable refines the identity on the byte log**: the error of the current
+chunk's fsync is returned; content, `Offset()` and the invariant are unchanged (whatever the sync mode). -/
+theorem multi_syncFail_refines {m : MultiApp} (h : MInv m) (hc : m.closed = false) (hro : m.readOnly = false) :
+    (m.sync false).2 = some .syncFailed ∧ MultiApp.abs (m.sync false).1 = MultiApp.abs m ∧
+    MInv (m.sync false).1 ∧ (m.sync false).1.offset = m.offset := by
+  obtain ⟨si, sa, _⟩ := MultiApp.sync_spec h false
+  refine ⟨MultiApp.sync_fail_err h hc hro, sa, si, ?_⟩
+  rw [← MultiApp.abs_size si, sa, MultiApp.abs_size h]
+
+/-- **A failing write that writes nothing** leaves content and invariant of a multi-file appendable unchanged. -/
+theorem multi_writeFail_unchanged {m : MultiApp} (h : MInv m) (ok : Bool) :
+    MultiApp.abs m.flushW0.1 = MultiApp.abs m ∧ MInv m.flushW0.1 ∧
+    MultiApp.abs (m.syncW0 ok).1 = MultiApp.abs m ∧ MInv (m.syncW0 ok).1 :=
+  ⟨(MultiApp.flushW0_spec h).2.1, (MultiApp.flushW0_spec h).1, (MultiApp.syncW0_spec h ok).2.1,
+   (MultiApp.syncW0_spec h ok).1⟩
 
 /-- **DiscardUpto preserves** the bytes at or after `off`: only whole chunk files strictly below the chunk of
 `off` are removed, never the current one; size and every in-range read at `o ≥ off` are unchanged. -/
